@@ -6,6 +6,7 @@ import (
 	"fmt"
 	"io"
 	"net"
+	"os"
 	"strings"
 	"time"
 
@@ -20,11 +21,27 @@ import (
 type scriptConn struct {
 	chunks   [][]byte
 	returned [][]byte
+	// quirks (io.Reader allows all of them): with probability quirk/100 a Read returns its bytes
+	// TOGETHER with a timeout error, or no bytes and a timeout; the last bytes may come with io.EOF
+	rng      *Rng
+	quirk    int
+	timeouts int // reads that returned a timeout error
+	withData int // ... of which with n > 0
 }
+
+type timeoutErr struct{}
+
+func (timeoutErr) Error() string   { return "i/o timeout (scripted)" }
+func (timeoutErr) Timeout() bool   { return true }
+func (timeoutErr) Temporary() bool { return true }
 
 func (s *scriptConn) Read(p []byte) (int, error) {
 	if len(s.chunks) == 0 {
 		return 0, io.EOF
+	}
+	if s.rng != nil && s.rng.Chance(s.quirk/3) { // nothing yet, the deadline passed
+		s.timeouts++
+		return 0, timeoutErr{}
 	}
 	c := s.chunks[0]
 	n := copy(p, c)
@@ -34,7 +51,40 @@ func (s *scriptConn) Read(p []byte) (int, error) {
 		s.chunks = s.chunks[1:]
 	}
 	s.returned = append(s.returned, append([]byte{}, p[:n]...))
+	if s.rng != nil {
+		if len(s.chunks) == 0 && s.rng.Bool() { // the last bytes together with end of file
+			return n, io.EOF
+		}
+		if s.rng.Chance(s.quirk) { // bytes together with a deadline error
+			s.timeouts++
+			s.withData++
+			if s.rng.Bool() {
+				return n, os.ErrDeadlineExceeded
+			}
+			return n, timeoutErr{}
+		}
+	}
 	return n, nil
+}
+
+// readAll calls ReadMessage the way a session reader does, going on after timeouts; after any
+// other error it looks once more for messages that were already complete in the framer.
+func readAll(mc netceptor.MessageConn, limit int) [][]byte {
+	var got [][]byte
+	fails := 0
+	for len(got) < limit && fails < 2 {
+		m, err := mc.ReadMessage(context.Background(), time.Second)
+		if err == netceptor.ErrTimeout {
+			continue
+		}
+		if err != nil {
+			fails++
+			continue
+		}
+		fails = 0
+		got = append(got, append([]byte{}, m...))
+	}
+	return got
 }
 func (s *scriptConn) Write(p []byte) (int, error)        { return len(p), nil }
 func (s *scriptConn) Close() error                       { return nil }
@@ -223,17 +273,13 @@ func framerCases(c *Ctx, im *Impl, cf *CaseFile) {
 			}
 			script := cutStream(r, stream[:cut], st2, mode)
 			conn := &scriptConn{chunks: append([][]byte{}, script...)}
+			if i%2 == 1 { // reads that return bytes together with a timeout / EOF, or a bare timeout
+				conn.rng, conn.quirk = NewRng(r.U64()), []int{10, 30, 60}[r.Intn(3)]
+			}
 			mc := netceptor.MessageConnFromNetConn(conn)
-			var got [][]byte
-			for {
-				m, err := mc.ReadMessage(context.Background(), time.Second)
-				if err != nil {
-					break
-				}
-				got = append(got, append([]byte{}, m...))
-				if len(got) > len(msgs)+2 {
-					break
-				}
+			got := readAll(mc, len(msgs)+3)
+			if conn.withData > 0 {
+				im.Hist("framer:stream-read-returned-bytes-with-a-timeout-error")
 			}
 			cf.Add(fmt.Sprintf("inr (FStream %s %s)", smartList(conn.returned), smartList(got)),
 				fmt.Sprintf("framer stream msgs=%d cut=%d/%d mode=%d", nm, cut, len(stream), mode))
@@ -475,15 +521,11 @@ func framerBoundaryCases(c *Ctx, im *Impl, cf *CaseFile) {
 			}
 			safely(im, fmt.Sprintf("%s, ReadMessage, chunking mode %d", what, mode), func() {
 				conn := &scriptConn{chunks: append([][]byte{}, script...)}
-				mc := netceptor.MessageConnFromNetConn(conn)
-				var got [][]byte
-				for len(got) < 4 {
-					g, err := mc.ReadMessage(context.Background(), time.Second)
-					if err != nil {
-						break
-					}
-					got = append(got, append([]byte{}, g...))
+				if mode%2 == 1 || mode == 4 {
+					conn.rng, conn.quirk = NewRng(r.U64()), 30
 				}
+				mc := netceptor.MessageConnFromNetConn(conn)
+				got := readAll(mc, 4)
 				cf.Add(fmt.Sprintf("inr (FStream %s %s)", smartList(conn.returned), smartList(got)),
 					fmt.Sprintf("framer boundary stream %s mode=%d", what, mode))
 				im.Count(fmt.Sprintf("boundary stream %s mode %d %v", what, mode, lensOf(conn.returned)[:min(len(conn.returned), 8)]), true)
